@@ -2,7 +2,7 @@
 # verify_seed.sh <worktree> : confirm a seeded change independently, inside its scratch worktree.
 #  (a) pristine + demo passes  (b) patched: existing suites pass  (c) patched + demo fails
 wt="$1"; cd "$wt" || exit 2
-git stash -q 2>/dev/null
+# (no git stash: refs/stash is shared by all worktrees of a repository)
 git checkout -q -- . ; rm -rf bio-seq/tests
 git apply --check _seeded/patch.diff || { echo "PATCH-DOES-NOT-APPLY"; exit 1; }
 mkdir -p bio-seq/tests && cp _seeded/demo.rs bio-seq/tests/seeded_demo.rs
